@@ -559,6 +559,17 @@ class Module:
         for m in re.finditer(r'^(%[-a-zA-Z$._0-9"]+) = type (.*)$', self.text, re.M):
             self.named_types[m.group(1)] = m.group(2)
 
+    def resolve(self, name):
+        """follow function aliases (LLVM's mergefunc turns identical bodies into aliases)"""
+        for _ in range(8):
+            if name in self.fpos or name not in self.gpos:
+                return name
+            g = self.global_def(name)
+            if g[0] != "alias":
+                return name
+            name = g[1]
+        return name
+
     def find_functions(self, pattern):
         r = re.compile(pattern)
         return [n for n in self.fpos if r.search(n)]
